@@ -6,6 +6,7 @@ ALL = ['C%02d' % i for i in range(1, 21)]
 TRACE = 'TLA+ level-A spec (Resonate.tla/Props.tla) checked exhaustively by TLC + TLC trace validation (ResonateTrace.tla) of executions recorded from the real kernel/coroutines/sqlite store driven by the ksim harness (controlled AIO: commit order, batching, ticks, faults, crashes)'
 SIDE = 'TLA+ side specification checked/enumerated by TLC + conformance of the real code: TLC-generated workloads replayed on the real implementation and the recorded observations judged by TLC against the specification'
 CLAIMED = {
+ 'C20': dict(cat='exploration', ref='6/C20', text='Fidelity.tla lists classes of client data (ids with slashes, spaces, case, non-ASCII, markup, separators, percent signs, template syntax, non-canonical path encodings; binary and large payloads; header/tag maps with empty and non-ASCII keys; idempotency keys; timeouts over the 64-bit range) and the scenarios: write through one protocol, read back through both, kill -9, restart, read again, complete, read again; ids differing only in case or surrounding space; ids derived by the server (scheduled promise ids, task ids and links in dispatched messages). TLC enumerates the scenarios, procx plays them on the real binary, TLC compares what came back (hex of the bytes) with what was supplied.', tech='TLA+ scenario table (Fidelity.tla) enumerated by TLC, played on the real server binary over HTTP and gRPC (procx), read-back values judged by TLC (FidelityTrace.tla)', engine='tlc+procx'),
  'C12': dict(cat='model_checking', ref='6/C12', text='Queues.tla (client goroutines, api queue/buffer/done flag under its lock, Loop, bounded scheduler in-queue, subsystem queue, worker, blocking completion queue) checked exhaustively by TLC for safety and liveness (exactly one reply, accepted requests answered before the loop returns, loop returns after shutdown); TLC-generated schedules of the controllable steps are replayed on the PRODUCTION api/aio/System.Loop with real goroutines (hook after the done-check), plus seeded free-running rounds with sizes down to 1 and bursts; TLC judges what every client observed.', tech=SIDE, engine='tlc+queuex'),
  'C15': dict(cat='model_checking', ref='6/C15', text='The complete finite table (17 operations x 29 statuses x delivery path x resource shape = 1632 vectors, and 44 paired requests) is enumerated by TLC from Render.tla and played against the real gin and grpc servers with real clients over a stub kernel, in a child process so that handler panics are observed; TLC judges HTTP code/body, gRPC code, outcome flags and request translation.', tech=SIDE, engine='tlc+frontx'),
  'C16': dict(cat='model_checking', ref='6/C16', text='Store.tla is an executable reference of the 27 commands; TLC generates batches (1..3 transactions x 1..3 commands, guarded writes aimed at current rows half of the time, naturally failing bulk inserts) which are executed by the real SQLite worker; every reported result (evaluated on the state just before its command) and the five tables read back through a second connection are judged by TLC.', tech=SIDE, engine='tlc+storex'),
@@ -44,6 +45,7 @@ NOTE = {
  'C18': 'the HTTP/SSE handler goroutines and the shutdown path are outside the replay',
  'C19': 'representative values per class, all classes enumerated',
  'C13': 'classes of values with representatives (not every byte string); quick tier plays a third of the table selected by VERIF_SEED, thorough all of it; expectations "must be refused" only where the statement is unambiguous (absent/empty required field, wrong JSON type, out-of-range number), otherwise only survival and no 5xx',
+ 'C20': 'classes with representatives, not every byte string; HTTP header values cannot carry non-ASCII text or surrounding white space (those idempotency keys travel over gRPC only); values are re-encoded to hex by the harness before TLC compares them',
  'C14': 'ids and patterns from an alphabet without SQL LIKE metacharacters and of uniform case (SQLite LIKE is case-insensitive; the statement only defines *); completeness is checked for promise traversals',
  'C11': 'the cycle bound is generous (40 + 12 x rows); hand-offs succeed and no faults after clients stop',
 }
